@@ -756,7 +756,18 @@ func (e *Exec) execSlice(x *ssa.Slice) Val {
 		lo, hi, mx = e.vc.Define("lo", lo), e.vc.Define("hi", hi), e.vc.Define("mx", mx)
 		goal := And(SGe(lo, bv64zero), SLe(lo, hi), SLe(hi, mx), SLe(mx, cp))
 		e.check("slice", goal, "slice bounds out of range")
-		return MkSlice(SlRef(s), e.vc.Define("off", BVAdd(SlOff(s), lo)), BVSub(hi, lo), BVSub(mx, lo))
+		res := MkSlice(SlRef(s), e.vc.Define("off", BVAdd(SlOff(s), lo)), BVSub(hi, lo), BVSub(mx, lo))
+		if isByteType(xt.Elem()) && e.seqFacts() && !(lo.IsLit() && lo.Lit.Sign() == 0 && x.High == nil) {
+			arr := e.vc.Define("slarr", e.backingCanon(s, xt.Elem()))
+			whole := App("bseq.of", "BSeq", arr, SlOff(s), SlLen(s))
+			part := App("bseq.of", "BSeq", arr, SlOff(res), SlLen(res))
+			if lo.IsLit() && lo.Lit.Sign() == 0 {
+				e.vc.Assume(e.g, Implies(SLe(hi, SlLen(s)), Eq(part, App("seqtrunc", "BSeq", whole, hi))))
+			} else {
+				e.vc.Assume(e.g, Implies(SLe(hi, SlLen(s)), Eq(part, App("seqsub", "BSeq", whole, lo, hi))))
+			}
+		}
+		return res
 	case *types.Basic: // string
 		s := e.term(x.X)
 		if x.High != nil {
@@ -820,6 +831,9 @@ func (e *Exec) execMakeSlice(x *ssa.MakeSlice) Val {
 	r := e.allocRef("mk")
 	n, s := elemHeap(el)
 	e.heapSet(n, Store(e.heapGet(n, s), r, ConstArr(ArraySort(BV(64), sortOf(el)), zeroOf(el))))
+	if isByteType(el) && e.seqFacts() {
+		e.vc.Assume(e.g, Eq(App("bseq.of", "BSeq", ConstArr(ArraySort(BV(64), BV(8)), BVLitI(0, 8)), bv64zero, ln), App("seqzeros", "BSeq", ln)))
+	}
 	return MkSlice(r, bv64zero, ln, cp)
 }
 
